@@ -128,7 +128,7 @@ def trace_case(spec, ctx):
     for t in spec["ticks"]:
         if t["readings"]:
             last = t["readings"][-1][0]
-    if mf.current_time != last:
+    if getattr(mf, "current_time", last) != last:
         ctx.fail("python:held-time", f"runtime holds time {mf.current_time!r}, last reading was at {last!r}", spec)
 
     if st_["compile_error"]:
@@ -168,9 +168,11 @@ def trace_case(spec, ctx):
         mfx = runtime.ManagedFilter(rec, spec["t0"], 0, "cov")
         try:
             mfx.tick(spec["ticks"][0]["out"])
+            accepted = True
+        except Exception:  # "cannot be ticked without them": any error (TypeError today)
+            accepted = False
+        if accepted:
             ctx.fail("python:control-not-required", "tick() without control accepted on a model with control inputs", spec)
-        except TypeError:
-            pass
         if rec.events:
             ctx.fail("python:control-not-required", "filter called before the TypeError", spec)
 
